@@ -20,7 +20,8 @@ TInit == /\ tid \in 1..Len(Traces) /\ ln = 1 /\ now = 0
 
 \* ---------------------------------------------------------------- comparing observables
 \* the observable content of an output event (what a trace line is compared on)
-EntryKey(en) == IF en.ty \in {"sub", "ack"} THEN <<en.ty, en.svc, en.eg, en.ctr, en.ttl>> ELSE <<en.ty, en.svc, en.ttl>>
+EntryKey(en) == IF "g" \in DOMAIN en THEN <<"sub", en.g, en.ttl, en.eps>>
+                ELSE IF en.ty \in {"sub", "ack"} THEN <<en.ty, en.svc, en.eg, en.ctr, en.ttl>> ELSE <<en.ty, en.svc, en.ttl>>
 SubK(x) == <<x.svc, x.eg, x.ctr, x.eps>>
 Key(o) ==
   CASE o.k = "rand" -> <<"rand", o.lo, o.hi, o.val>>
